@@ -234,12 +234,15 @@ def g_concat(rng):
     axis = rng.randint(0, nd - 1)
     shapes, chunkss = _arrays_like(rng, n, nd, axis)
     r = rng.random()
-    if n >= 2 and r < 0.15:
+    if n >= 2 and r < 0.25:
         j = rng.randrange(n)
         k = rng.randrange(nd)
         shapes[j][k] += 1                       # mismatch (harmless when k == axis)
         chunkss[j][k] = min(chunkss[j][k], shapes[j][k])
-    if n >= 2 and 0.15 <= r < 0.22:
+        if rng.random() < 0.7:                  # one block along k everywhere: unify_chunks has nothing to object to
+            for q in range(n):
+                chunkss[q][k] = shapes[q][k]
+    if n >= 2 and 0.25 <= r < 0.32:
         shapes[-1] = shapes[-1] + [2]           # rank mismatch
         chunkss[-1] = chunkss[-1] + [1]
     ax = axis
@@ -261,6 +264,9 @@ def g_stack(rng):
     n = rng.choice([0, 1, 2, 2, 3])
     nd = rng.randint(1, 2)
     shapes, chunkss = _arrays_like(rng, n, nd)
+    if n >= 2 and rng.random() < 0.25:
+        j, k = rng.randrange(n), rng.randrange(nd)
+        shapes[j][k] += 1
     ax = rng.randint(-nd - 2, nd + 1)
 
     def thunk():
@@ -328,20 +334,22 @@ def g_qr(rng):
     chunks = [rng.randint(1, s) for s in shape]
     if nd == 2:
         chunks[1] = shape[1] if rng.random() < 0.7 else chunks[1]
-        # keep accepted cases inside the supported layout (row chunk >= columns), the rest is the qr finding
-        if chunks[1] == shape[1]:
+        if rng.random() < 0.5:      # often a supported layout: every row chunk has at least as many rows as columns
             shape[0] = max(shape[0], shape[1])
             chunks[0] = max(chunks[0], shape[1])
             shape[0] = -(-shape[0] // chunks[0]) * chunks[0]
     dtype = rng.choice(["float64", "float64", "float32", "int64"])
     mode = rng.choice(["reduced", "reduced", "reduced", "complete"])
     cb = nblocks(shape[1], chunks[1]) if nd >= 2 else 1
+    short = 0
+    if nd == 2:
+        rows = [min(chunks[0], shape[0] - i * chunks[0]) for i in range(nblocks(shape[0], chunks[0]))]
+        short = int(any(r < chunks[1] for r in rows))
 
     def thunk():
         import cubed.array_api as xp
-        xp.linalg.qr(arr(shape, chunks, dtype), mode=mode)
-        return "ok"
-    return ("qr|%d|%d|%d|%d" % (nd, mode == "reduced", dtype.startswith("float"), cb), thunk,
+        return list(xp.linalg.qr(arr(shape, chunks, dtype), mode=mode))
+    return ("qr|%d|%d|%d|%d|%d" % (nd, mode == "reduced", dtype.startswith("float"), cb, short), thunk,
             {"shape": shape, "chunks": chunks, "dtype": dtype, "mode": mode}, True)
 
 
@@ -701,7 +709,7 @@ def corr_keys(ctx, n):
                     add(region_req("regionkeys", p), " ".join(got), p, kind="keys:region")
                 elif fam == "scan":
                     import cubed.array_api as xp
-                    nb = rng.choice([2, 3, 4, 5, 10, 15, 20, 25])
+                    nb = rng.choice([2, 3, 4, 5, 6, 7, 9, 10, 11, 13, 15, 20, 26])
                     x = arr([nb * 2], [2])
                     y = xp.cumulative_sum(x)
                     op = op_of(y)
@@ -900,20 +908,6 @@ def classify(build, config, phase, e, params=None):
     fr = frames_of(e)
     names = [getattr(f.f_code, "co_qualname", f.f_code.co_name) for f in fr]
     msg = str(e)
-    # 1. scan: bare assertion at build
-    if isinstance(e, AssertionError) and phase == "build":
-        for f in reversed(fr):
-            if f.f_code.co_name == "scan" and f.f_code.co_filename.endswith("cubed/core/ops.py"):
-                try:
-                    nb = f.f_locals["array"].numblocks[f.f_locals["axis"]]
-                except Exception:  # noqa: BLE001
-                    return None
-                inc, scn = f.f_locals.get("increment"), f.f_locals.get("scanned")
-                if inc is None or scn is None:
-                    continue
-                if nb > 5 and not scan_ok(nb) and inc.shape[f.f_locals["axis"]] != scn.numblocks[f.f_locals["axis"]]:
-                    return "scan-ragged-groups"
-        return None
     # 2. repeat with repeats == 0: ZeroDivisionError in the key function
     if isinstance(e, ZeroDivisionError) and phase == "execute":
         for f in fr:
@@ -964,8 +958,8 @@ def classify(build, config, phase, e, params=None):
                 return "var-zero-dim"
     if qual == "clip" and isinstance(e2, TypeError) and "a_max" in msg2 and len(cfg.num_input_blocks) == 2:
         return "clip-min-only"
-    if isinstance(e2, ValueError) and any(w in msg2 for w in ("broadcast", "shape-mismatch", "mismatch in its core dimension")) \
-            and qual not in ("_read_stack_chunk", "qr", "_repeat"):
+    if ((isinstance(e2, ValueError) and any(w in msg2 for w in ("broadcast", "shape-mismatch", "mismatch in its core dimension")))
+            or (qual == "_read_stack_chunk" and shape_err)) and qual not in ("qr", "_repeat"):
         # unify_chunks asked for a rechunk of a zero-size operand, which `_rechunk_plan` skips: blocks stay misaligned
         geo = [chunks_of(p) for p in cfg.reads_map.values()]
         if any(0 in shp for _, shp in geo) and len(geo) >= 2:
@@ -974,15 +968,6 @@ def classify(build, config, phase, e, params=None):
         kw = getattr(cfg.function, "keywords", {}) or {}
         if isinstance(kw.get("axis"), int) and kw["axis"] < 0 and kw.get("repeats", 0) >= 1:
             return "repeat-negative-axis"
-    if qual == "_read_stack_chunk" and shape_err:
-        geoms = {chunks_of(p) for p in cfg.reads_map.values()}
-        if len(geoms) > 1:
-            return "stack-unequal-chunks"
-    if qual == "qr" and isinstance(e2, ValueError) and "could not broadcast" in msg2:
-        for p in cfg.reads_map.values():
-            ch, shp = chunks_of(p)
-            if len(shp) == 2 and min(ch[0]) < shp[1]:
-                return "qr-short-row-chunk"
     if isinstance(e2, KeyError) and params.get("family") == "map_blocks_late_contraction":
         k = e2.args[0] if e2.args else None
         if isinstance(k, tuple) and params.get("first_has_contracted") is False and params.get("later_has_contracted") is True:
@@ -1197,6 +1182,36 @@ def oracle_regressions(ctx):
                 if not np.array_equal(holder["z"][:], exp):
                     ctx.fail("repaired store (%s) completes but writes %s, expected %s" % (label, holder["z"][:].tolist(), exp.tolist()),
                              dict(case=dict(p, op="store"), config=cname))
+    # fix 5fff6ae (scan), f3856f5 (stack), 19968d0 (qr)
+    more = [
+        ("done", "scan-ragged", lambda: xp.cumulative_sum(arr([6], [1])), np.cumsum(np.arange(6))),
+        ("done", "scan-ragged", lambda: xp.cumulative_sum(arr([11], [1])), np.cumsum(np.arange(11))),
+        ("done", "scan-ragged", lambda: xp.cumulative_sum(arr([30], [1])), np.cumsum(np.arange(30))),
+        ("done", "scan-ragged", lambda: xp.cumulative_prod(arr([7, 2], [1, 2], "float64") + 1.0, axis=0), np.cumprod(np.arange(14.0).reshape(7, 2) + 1.0, axis=0)),
+        ("done", "stack-chunks", lambda: xp.stack([arr([2], [1]), arr([2], [2])]), np.stack([np.arange(2), np.arange(2)])),
+        ("done", "stack-chunks", lambda: xp.stack([arr([4], [2]), arr([4], [3])]), np.stack([np.arange(4), np.arange(4)])),
+        ("refused", "stack-shapes", lambda: xp.stack([arr([2], [2]), arr([3], [3])]), None),
+        ("refused", "qr-short-row", lambda: list(xp.linalg.qr(arr([6, 4], [2, 4], "float64"))), None),
+        ("refused", "qr-short-row", lambda: list(xp.linalg.qr(arr([2, 4], [2, 4], "float64"))), None),
+    ]
+    for want, label, build, expect in more:
+        for cname in ("default", "off"):
+            phase, e = run_phases(build, optimizers()[cname])
+            got = "done" if e is None else ("refused" if verdict(phase, e) is None else "failed")
+            ctx.count({"regression": label, "config": cname, "n": more.index((want, label, build, expect))}, nontrivial=True,
+                      kind="oracle:regression:%s:%s" % (label, got))
+            if got != want:
+                ctx.fail("repaired defect is back (%s): expected %s, got %s %s" % (label, want, got, "" if e is None else "%s during %s: %s" % (type(e).__name__, phase, str(e)[:100])),
+                         dict(case={"op": label}, config=cname, phase=phase, exception=None if e is None else type(e).__name__))
+        if want == "done":
+            with warnings.catch_warnings():
+                warnings.simplefilter("ignore")
+                try:
+                    val = build().compute()
+                    if not np.allclose(val, expect):
+                        ctx.fail("repaired op (%s) completes with wrong values %s" % (label, np.asarray(val).tolist()), dict(case={"op": label}))
+                except Exception as ee:  # noqa: BLE001
+                    ctx.fail("repaired op (%s) fails: %r" % (label, ee), dict(case={"op": label}))
     # fix 2fe4874: negative-step slice after an integer index
     a = np.arange(24).reshape(2, 3, 4)
     for key in [(0, slice(None, None, -1), slice(None)), (0, slice(None), slice(None, None, -1)), (slice(None), 0, slice(None, None, -1))]:
